@@ -432,6 +432,16 @@ fn download_to_file(path: &Path, url: &str, timeout: Duration) -> Result<File> {
     temp_file.as_file_mut().sync_all()?;
     temp_file.as_file_mut().seek(SeekFrom::Start(0))?;
 
+    // A response without a Content-Length that the server (or a proxy) closes
+    // early is a success as far as curl can tell, even when the connection
+    // ends inside the headers. Only a complete JSON document may replace the
+    // file that is already there.
+    let mut body = String::new();
+    temp_file.as_file_mut().read_to_string(&mut body)?;
+    serde_json::from_str::<serde::de::IgnoredAny>(&body)
+        .wrap_err_with(|| format!("Received an incomplete or invalid document from {}", url))?;
+    temp_file.as_file_mut().seek(SeekFrom::Start(0))?;
+
     temp_file
         .persist(path)
         .wrap_err("Failed to write to cache dir")
